@@ -54,6 +54,7 @@ func C06(c *core.Ctx) {
 	c.Rule("C06-R2", "percentage reader delegates to the amount reader; patterns agree", 2)
 	c.Rule("C06-R3", "unquote / UnmarshalText / MarshalText symmetry", 5)
 	c.Rule("C06-R4", "printer stays inside the pattern", 2)
+	c06PowerTables(c)
 
 	apat, apos, ok := schemaPattern(p, "Amount")
 	if !ok {
@@ -695,4 +696,74 @@ func c06RangeCheck(c *core.Ctx, fd *core.FuncDecl, ff *core.FuncFlow) {
 	}
 	c.Ob("C06-R1", key, mul.Pos(), checked, why)
 	_ = p
+}
+
+
+// c06PowerTables — C06-R5: a table of powers of ten in package num holds 10^i at
+// index i. The text codec scales by 10^exp in both directions; a table with one
+// wrong entry makes writer and reader agree with each other and disagree with
+// the value (value → text → value is still the identity).
+func c06PowerTables(c *core.Ctx) {
+	p := c.P
+	c.Rule("C06-R5", "tables of powers of ten are exact", 0)
+	pk := p.Pkg("num")
+	if pk == nil {
+		return
+	}
+	info := pk.TypesInfo
+	n := 0
+	for _, file := range pk.Syntax {
+		if p.IsTestFile(file.Pos()) {
+			continue
+		}
+		ast.Inspect(file, func(m ast.Node) bool {
+			cl, ok := m.(*ast.CompositeLit)
+			if !ok || len(cl.Elts) < 4 {
+				return true
+			}
+			t := info.TypeOf(cl)
+			if t == nil {
+				return true
+			}
+			var elem types.Type
+			switch u := t.Underlying().(type) {
+			case *types.Array:
+				elem = u.Elem()
+			case *types.Slice:
+				elem = u.Elem()
+			default:
+				return true
+			}
+			if b, ok := elem.Underlying().(*types.Basic); !ok || b.Info()&(types.IsInteger|types.IsFloat) == 0 {
+				return true
+			}
+			vals := make([]constant.Value, 0, len(cl.Elts))
+			for _, el := range cl.Elts {
+				if _, isKV := el.(*ast.KeyValueExpr); isKV {
+					return true
+				}
+				tv, ok := info.Types[el]
+				if !ok || tv.Value == nil {
+					return true
+				}
+				vals = append(vals, tv.Value)
+			}
+			one, ten := constant.MakeInt64(1), constant.MakeInt64(10)
+			if !constant.Compare(constant.ToInt(vals[0]), token.EQL, one) || !constant.Compare(constant.ToInt(vals[1]), token.EQL, ten) || !constant.Compare(constant.ToInt(vals[2]), token.EQL, constant.MakeInt64(100)) {
+				return true // not a table of powers of ten
+			}
+			n++
+			want := one
+			bad := ""
+			for i, v := range vals {
+				if !constant.Compare(constant.ToInt(v), token.EQL, want) && bad == "" {
+					bad = fmt.Sprintf("entry %d is %s, 10^%d is %s", i, v.ExactString(), i, want.ExactString())
+				}
+				want = constant.BinaryOp(want, token.MUL, ten)
+			}
+			c.Ob("C06-R5", fmt.Sprintf("num#power-table%d", n), cl.Pos(), bad == "", "a table of powers of ten is wrong: "+bad+" — amounts with that many decimals are scaled by the wrong factor when written and when read")
+			return true
+		})
+	}
+	c.Extra("C06-R5_power_tables", n)
 }
